@@ -7,7 +7,8 @@
    bias and output node (id and role) of g is in g'.  [env_ok e g]: the innovation environment
    (counters and this generation's records) is consistent with the genome (without it the claim is
    false: a recorded number that collides with a gene already in the genome would break ordering). *)
-From NeatModel Require Import Res F64 GoRand Genome Options Insert Dup Mutate Mate InsertSpec WF MateSpec MateWF MutateWF.
+From NeatModel Require Import Compat.
+From NeatModel Require Import Res F64 GoRand Genome Options Insert Dup Mutate Mate Population InsertSpec WF MateSpec MateWF MutateWF Registry PopWF Genesis Graph GenesisSpec GraphSpec GraphView.
 
 (* ---- duplication ---- *)
 Theorem C01_duplicate_wf : forall g id, wf g -> duplicate g id = Ok (with_id g id) /\ wf (with_id g id).
@@ -125,3 +126,56 @@ Proof.
   split; [exact E|]. intros W. exact (wf_nonempty _ W E).
 Qed.
 Print Assumptions C01_singlepoint_unrelated_refuted.
+
+(* ---- population level: spawning and every epoch turnover (sequential executor), any number of
+   generations, any fitness assignments, any tapes: every genome held by the population (old generation
+   and babies alike, looked up through any key) is well-formed and retains the input, bias and output
+   nodes of the start genome.  [history o p s l p' s']: any number of rounds of (set_fitness; next_epoch),
+   each with an arbitrary generation number, executor state and tape; l lists the intermediate
+   populations. ---- *)
+Theorem C01_spawn_wf : forall o g s0 p s,
+    wf g -> Genome.innovs (s_env s0) = [] -> new_population o g s0 = Ok (p, s) ->
+    forall k x, hget (p_heap p) k = Ok x -> wf (o_genome x) /\ retains_io g (o_genome x).
+Proof.
+  intros o g s0 p s W E H k x Hk. exact (pop_wf_reachable g p k x (pop_wf_spawn o g s0 p s W E H) Hk).
+Qed.
+Print Assumptions C01_spawn_wf.
+
+Theorem C01_history_wf : forall o g s0 p s l p' s',
+    wf g -> Genome.innovs (s_env s0) = [] -> new_population o g s0 = Ok (p, s) -> history o p s l p' s' ->
+    forall q, In q (p :: l) ->
+    forall k x, hget (p_heap q) k = Ok x -> wf (o_genome x) /\ retains_io g (o_genome x).
+Proof.
+  intros o g s0 p s l p' s' W E H Hh q Hq k x Hk.
+  exact (pop_wf_reachable g q k x (pop_wf_history o g s0 p s l p' s' W E H Hh q Hq) Hk).
+Qed.
+Print Assumptions C01_history_wf.
+
+(* every well-formed genome can be expressed as a network: the two error conditions of Genesis (no genes,
+   no output node) are excluded by wf, and every gene endpoint resolves *)
+Theorem C01_wf_genesis_ok : forall g, wf g -> genesis_check g = Ok tt.
+Proof.
+  intros g W. unfold genesis_check. destruct (genes g) eqn:E; [exfalso; exact (wf_nonempty _ W E)|].
+  destruct (wf_output _ W) as [n [Hn Ht]].
+  assert (Hex : existsb (fun n0 : node => Z.eqb (n_type n0) OUTPUT) (nodes g) = true).
+  { apply existsb_exists. exists n. split; [exact Hn|]. rewrite Ht. reflexivity. }
+  now rewrite Hex.
+Qed.
+Print Assumptions C01_wf_genesis_ok.
+
+(* ... and the model of Genome.Genesis (validated against the real Genesis by C11's correspondence)
+   returns a network for it, under any network id *)
+Theorem C01_wf_expressible : forall g id, wf g -> exists n, genesis g id = Ok n.
+Proof.
+  intros g id W.
+  assert (Hnd : NoDup (map n_id (nodes g))) by (apply asc_NoDup; exact (WF.wf_nodes _ W)).
+  apply genesis_succeeds.
+  - exact Hnd.
+  - intros x Hx _. destruct (WF.wf_endpoints _ W x Hx) as [a [b [Ha [Hb _]]]].
+    apply node_with_id_In in Ha. apply node_with_id_In in Hb. destruct Ha as [Ha <-]. destruct Hb as [Hb <-].
+    split; now apply in_map.
+  - rewrite (WF.wf_nonmodular _ W). intros m [].
+  - exact (WF.wf_nonempty _ W).
+  - destruct (WF.wf_output _ W) as [n [Hn Ht]]. exists n. split; assumption.
+Qed.
+Print Assumptions C01_wf_expressible.
